@@ -568,6 +568,8 @@ func (x *Exec) digest(chunks []HChunk) []*Term {
 }
 
 func (x *Exec) hashMethod(o *Object, name string, args []Value) Value {
+	// a digest object reachable from a global is shared state: its use is a read/write event
+	x.access(o, nil, name != "Size" && name != "BlockSize")
 	switch name {
 	case "Write":
 		sl := args[0].(SliceV)
